@@ -10,8 +10,8 @@ import (
 	"os"
 	"path/filepath"
 	"sort"
-	"strconv"
-	"strings"
+		"strings"
+	"sync"
 	"time"
 
 	"gosym/exec"
@@ -62,59 +62,59 @@ type Result struct {
 	Reached     map[string]int    `json:"reached"`
 	Funcs       []FuncInfo        `json:"functions_encoded"`
 	SamplePCs   []string          `json:"sample_path_conditions"`
+	Samples     []exec.PathSample `json:"sample_paths"`
 	Params      map[string]int    `json:"params"`
 	Terms       int               `json:"terms"`
 }
 
+type Job struct {
+	ID        string         `json:"id"`
+	Entry     string         `json:"entry"`
+	Params    map[string]int `json:"params"`
+	Flags     map[string]int `json:"flags"`
+	Solver    string         `json:"solver"`
+	Out       string         `json:"out"`
+}
+
+type JobFile struct {
+	Dir      string            `json:"dir"`
+	Pkgs     []string          `json:"pkgs"`
+	Overlays map[string]string `json:"overlays"`
+	Jobs     []Job             `json:"jobs"`
+	Parallel int               `json:"parallel"`
+}
+
+func flagOr(j *Job, name string, def int) int {
+	if v, ok := j.Flags[name]; ok {
+		return v
+	}
+	return def
+}
+
 func main() {
-	var (
-		dir      = flag.String("dir", "/repo", "repository root")
-		pkgPat   = flag.String("pkg", "", "package pattern of the harness package (e.g. ./cram/encoding/itf8)")
-		entry    = flag.String("entry", "", "harness function name")
-		out      = flag.String("out", "", "result JSON path")
-		solver   = flag.String("solver", "z3", "z3 | z3-new | cvc5")
-		timeout  = flag.Int("timeout-ms", 60000, "per-query solver timeout")
-		maxSteps = flag.Int("max-steps", 2000000, "per-path step bound")
-		maxVisit = flag.Int("unwind", 64, "per-frame loop-header visit bound")
-		maxPaths = flag.Int("max-paths", 200000, "path bound")
-		maxDepth = flag.Int("max-depth", 64, "call depth bound")
-		allocLim = flag.Int("alloc-limit", 64, "limit for symbolic allocation sizes")
-		preempt  = flag.Int("preempt", 2, "pre-emption bound")
-		budget   = flag.Int("budget-s", 0, "wall-clock budget for exploration (0 = none)")
-		verbose  = flag.Bool("v", false, "verbose")
-		dumpSMT  = flag.String("dump-smt", "", "write all solver input to this file")
-		overlays multiFlag
-		params   multiFlag
-	)
-	flag.Var(&overlays, "overlay", "virtual=real file mapping (repeatable)")
-	flag.Var(&params, "param", "name=int (repeatable)")
+	jobsPath := flag.String("jobs", "", "job file (JSON)")
+	verbose := flag.Bool("v", false, "verbose")
+	dumpSMT := flag.String("dump-smt", "", "directory for solver input dumps")
 	flag.Parse()
 	start := time.Now()
-
+	var jf JobFile
+	b, err := os.ReadFile(*jobsPath)
+	if err != nil {
+		fatal("jobs: %v", err)
+	}
+	if err := json.Unmarshal(b, &jf); err != nil {
+		fatal("jobs: %v", err)
+	}
 	ov := map[string][]byte{}
-	for _, o := range overlays {
-		kv := strings.SplitN(o, "=", 2)
-		if len(kv) != 2 {
-			fatal("bad -overlay %q", o)
-		}
-		b, err := os.ReadFile(kv[1])
+	for v, r := range jf.Overlays {
+		b, err := os.ReadFile(r)
 		if err != nil {
 			fatal("overlay: %v", err)
 		}
-		ov[kv[0]] = b
+		ov[v] = b
 	}
-	pm := map[string]int{}
-	for _, p := range params {
-		kv := strings.SplitN(p, "=", 2)
-		v, err := strconv.Atoi(kv[1])
-		if err != nil {
-			fatal("bad -param %q", p)
-		}
-		pm[kv[0]] = v
-	}
-
-	cfg := &packages.Config{Mode: packages.LoadAllSyntax, Dir: *dir, Overlay: ov, Env: append(os.Environ(), "GOFLAGS=-mod=mod", "GOPROXY=off", "GOSUMDB=off")}
-	pkgs, err := packages.Load(cfg, *pkgPat)
+	cfg := &packages.Config{Mode: packages.LoadAllSyntax, Dir: jf.Dir, Overlay: ov, Env: append(os.Environ(), "GOFLAGS=-mod=mod", "GOPROXY=off", "GOSUMDB=off")}
+	pkgs, err := packages.Load(cfg, jf.Pkgs...)
 	if err != nil {
 		fatal("load: %v", err)
 	}
@@ -133,42 +133,71 @@ func main() {
 	prog, spkgs := ssautil.AllPackages(pkgs, ssa.InstantiateGenerics)
 	prog.Build()
 	loadT := time.Since(start).Seconds()
-	var fn *ssa.Function
-	for _, sp := range spkgs {
-		if sp != nil {
-			if f := sp.Func(*entry); f != nil {
-				fn = f
+	fmt.Fprintf(os.Stderr, "loaded %d packages in %.1fs\n", len(prog.AllPackages()), loadT)
+	par := jf.Parallel
+	if par <= 0 {
+		par = 8
+	}
+	sem := make(chan struct{}, par)
+	var wg sync.WaitGroup
+	for i := range jf.Jobs {
+		j := &jf.Jobs[i]
+		var fn *ssa.Function
+		for _, sp := range spkgs {
+			if sp != nil {
+				if f := sp.Func(j.Entry); f != nil {
+					fn = f
+				}
 			}
 		}
+		if fn == nil {
+			fatal("harness %s not found", j.Entry)
+		}
+		wg.Add(1)
+		go func() {
+			defer wg.Done()
+			sem <- struct{}{}
+			defer func() { <-sem }()
+			runJob(prog, fn, j, &jf, ov, loadT, *verbose, *dumpSMT)
+		}()
 	}
-	if fn == nil {
-		fatal("harness %s not found in %s", *entry, *pkgPat)
-	}
+	wg.Wait()
+}
 
+func runJob(prog *ssa.Program, fn *ssa.Function, j *Job, jf *JobFile, ov map[string][]byte, loadT float64, verbose bool, dumpDir string) {
+	start := time.Now()
+	solver := j.Solver
+	if solver == "" {
+		solver = "z3"
+	}
 	ctx := sym.NewCtx()
-	sv, err := sym.NewSolver(ctx, *solver, *timeout)
+	sv, err := sym.NewSolver(ctx, solver, flagOr(j, "timeout-ms", 60000))
 	if err != nil {
 		fatal("solver: %v", err)
 	}
 	defer sv.Close()
-	if *dumpSMT != "" {
-		f, _ := os.Create(*dumpSMT)
+	if dumpDir != "" {
+		f, _ := os.Create(filepath.Join(dumpDir, j.ID+".smt2"))
 		defer f.Close()
 		sv.Dump = f
 	}
-	ecfg := exec.Config{MaxSteps: *maxSteps, MaxVisits: *maxVisit, MaxPaths: *maxPaths, MaxDepth: *maxDepth,
-		AllocLimit: *allocLim, Params: pm, Preempt: *preempt, Verbose: *verbose}
-	if *budget > 0 {
-		ecfg.Deadline = time.Now().Add(time.Duration(*budget) * time.Second)
+	pm := j.Params
+	if pm == nil {
+		pm = map[string]int{}
+	}
+	ecfg := exec.Config{MaxSteps: flagOr(j, "max-steps", 2000000), MaxVisits: flagOr(j, "unwind", 64), MaxPaths: flagOr(j, "max-paths", 500000),
+		MaxDepth: flagOr(j, "max-depth", 64), AllocLimit: flagOr(j, "alloc-limit", 64), Params: pm, Preempt: flagOr(j, "preempt", 2), Verbose: verbose}
+	if b := flagOr(j, "budget-s", 0); b > 0 {
+		ecfg.Deadline = time.Now().Add(time.Duration(b) * time.Second)
 	}
 	m := exec.NewMachine(prog, ctx, sv, ecfg)
 	oc := m.Explore(fn)
 
-	res := &Result{Harness: *entry, Pkg: *pkgPat, Complete: oc.Complete, Reason: oc.Reason, Paths: m.Stats.Paths, Completed: m.Stats.Completed,
+	res := &Result{Harness: j.ID, Pkg: fn.Pkg.Pkg.Path(), Complete: oc.Complete, Reason: oc.Reason, Paths: m.Stats.Paths, Completed: m.Stats.Completed,
 		Steps: m.Stats.Steps, Decisions: m.Stats.Decisions, Checks: m.Stats.Checks, AssumeKilled: m.Stats.AssumeKilled,
 		OverLimit: m.Stats.OverLimit, UnwindHits: m.Stats.UnwindHits, Unknowns: m.Stats.Unknowns, Unsupported: m.Stats.Unsupported,
 		EngineErrors: m.Stats.EngineErrors, SolverErrors: sv.Errors, Queries: sv.Queries, QSat: sv.NSat, QUnsat: sv.NUnsat,
-		SolverTime: sv.Time.Seconds(), Solver: *solver, Violations: m.Violations, Reached: m.Reached, SamplePCs: m.SamplePCs,
+		SolverTime: sv.Time.Seconds(), Solver: solver, Violations: m.Violations, Reached: m.Reached, SamplePCs: m.SamplePCs, Samples: m.Samples,
 		Params: pm, LoadTime: loadT, Terms: ctx.NumTerms()}
 	if res.Violations == nil {
 		res.Violations = []*exec.Violation{}
@@ -179,7 +208,7 @@ func main() {
 		fi := FuncInfo{Name: f.String(), Calls: n}
 		if f.Pos().IsValid() {
 			file := prog.Fset.Position(f.Pos()).Filename
-			if strings.HasPrefix(file, *dir+"/") {
+			if strings.HasPrefix(file, jf.Dir+"/") {
 				fi.File = file
 				if h, ok := hashes[file]; ok {
 					fi.SHA = h
@@ -203,14 +232,14 @@ func main() {
 	sort.Slice(res.Funcs, func(i, j int) bool { return res.Funcs[i].Name < res.Funcs[j].Name })
 	res.Wall = time.Since(start).Seconds()
 	b, _ := json.MarshalIndent(res, "", " ")
-	if *out != "" {
-		os.WriteFile(*out, b, 0o644)
+	if j.Out != "" {
+		os.WriteFile(j.Out, b, 0o644)
 	} else {
 		os.Stdout.Write(b)
 		fmt.Println()
 	}
 	fmt.Fprintf(os.Stderr, "%s: complete=%v paths=%d steps=%d queries=%d (sat %d unsat %d unknown %d) solver=%.2fs wall=%.2fs violations=%d unsupported=%d engine_errors=%d %s\n",
-		*entry, oc.Complete, m.Stats.Paths, m.Stats.Steps, sv.Queries, sv.NSat, sv.NUnsat, sv.NUnknown, sv.Time.Seconds(), res.Wall,
+		j.ID, oc.Complete, m.Stats.Paths, m.Stats.Steps, sv.Queries, sv.NSat, sv.NUnsat, sv.NUnknown, sv.Time.Seconds(), res.Wall,
 		len(m.Violations), len(m.Stats.Unsupported), len(m.Stats.EngineErrors), oc.Reason)
 }
 
